@@ -73,6 +73,7 @@ func TestMain(m *testing.M) {
 	}
 	ops.DefaultEnv.Scratch = filepath.Join(scratch, fmt.Sprintf("inproc.%d", os.Getpid()))
 	os.MkdirAll(ops.DefaultEnv.Scratch, 0o755)
+	ops.DefaultEnv.Guard = true
 	os.Setenv("HOME", filepath.Join(ops.DefaultEnv.Scratch, "verif-home")) // (does not exist; see ops.WorkerMain)
 	loadKnown()
 	code := m.Run()
